@@ -137,7 +137,7 @@ def evaluate(e, env, checked=True):
     raise Unknown(k)
 
 
-_VARIANT_INDEX = {"None": 0, "Some": 1, "Ok": 0, "Err": 1, "Continue": 0, "Break": 1}
+_VARIANT_INDEX = {"None": 0, "Some": 1, "Ok": 0, "Err": 1, "Continue": 0, "Break": 1, "Less": -1, "Equal": 0, "Greater": 1}
 _FIELD_NAMES = {"core::ops::range::Range": ["start", "end"], "core::ops::range::RangeInclusive": ["start", "end", "exhausted"]}
 
 
@@ -221,6 +221,9 @@ def builtin_call(name, args, checked):
     if re.search(r"core::ops::range::RangeInclusive(::)?<", name) and ends("::contains"):
         r, x = args
         return 1 if r[3][0] <= x <= r[3][1] else 0
+    if re.search(r"(core::cmp::Ord|impl core::cmp::Ord for \w+>?)::cmp$", name) or ends("::cmp") and len(args) == 2 and all(isinstance(a, int) for a in args):
+        a, b = args
+        return ("variant", "Less" if a < b else ("Equal" if a == b else "Greater"), "core::cmp::Ordering", ())
     if ends("Option::<T>::is_none"):
         return 1 if args[0][1] == "None" else 0
     if ends("Option::<T>::is_some"):
@@ -244,7 +247,7 @@ class NotATree(Exception):
     pass
 
 
-def decision(fn, start=0, max_nodes=20000, leaf_of_block=None):
+def decision(fn, start=0, max_nodes=20000, leaf_of_block=None, result_place=None):
     """Unfold the CFG below `start` into a decision tree.
        nodes: ('switch', cond_expr, {value: subtree}, default_subtree, bb)
               ('leaf', label, bb)    label = what was last stored to the return place / diverging callee
@@ -255,7 +258,8 @@ def decision(fn, start=0, max_nodes=20000, leaf_of_block=None):
 
     def ret_label(b, cur, lets):
         for s in fn.stmts(b):
-            if s["k"] == "assign" and s["p"]["l"] == 0 and place_is_local(s["p"]):
+            if s["k"] == "assign" and ((result_place is None and s["p"]["l"] == 0 and place_is_local(s["p"])) or
+                                       (result_place is not None and result_place(s["p"]))):
                 cur = subst_locals(fn.rvalue_expr(s["r"], depth=20), lets)
             elif s["k"] == "assign" and place_is_local(s["p"]) and s["p"]["l"] in multi:
                 lets = dict(lets)
